@@ -6,6 +6,7 @@ package main
 import (
 	"fmt"
 	"go/token"
+	"go/types"
 	"strings"
 
 	"golang.org/x/tools/go/ssa"
@@ -27,6 +28,7 @@ func runC08(r *Run, verifDir string) {
 	c08K5InvalidMessage(r)
 	c.k6Releasable()
 	c08K7AcceptLoop(r)
+	c08K8NilItems(r)
 }
 
 // ---------------------------------------------------------------- K3
@@ -842,5 +844,190 @@ func c08K7AcceptLoop(r *Run) {
 		r.Bad("C08.K7", "kmipserver.Server.Serve/accept-loop", sv.Pos(), "the accepted connection is not handed to its own goroutine")
 	default:
 		r.OK("C08.K7", "kmipserver.Server.Serve/accept-loop", accept.Pos(), "the accepted connection is used only as the argument of `go handleConn`")
+	}
+}
+
+// ---------------------------------------------------------------- K8
+
+// c08K8NilItems: a pointer result that a caller on the connection goroutine dereferences without a nil test is never nil:
+// for every call in package kmipserver whose pointer result is dereferenced unguarded, every library function that can be
+// the callee (statically, or through the call graph for closures/function values) returns no nil constant for that result.
+// (The connection goroutine has no recover: a nil dereference there ends the process.)
+func c08K8NilItems(r *Run) {
+	p := r.P
+	r.Rule("C08.K8", "no nil item: a pointer result dereferenced by its caller without a nil test is never the nil constant in any library callee", 1)
+	cg := p.CallGraph()
+	isModPtr := func(t types.Type) bool {
+		pt, ok := t.Underlying().(*types.Pointer)
+		if !ok {
+			return false
+		}
+		return strings.HasPrefix(typePkgPath(pt.Elem()), modPath) && derefStruct(t) != nil
+	}
+	nilGuarded := func(v ssa.Value, at ssa.Instruction) bool {
+		for _, dc := range dominatingConds(at.Block()) {
+			bo, ok := dc.cond.(*ssa.BinOp)
+			if !ok || !isNilConst(bo.Y) || bo.X != v {
+				continue
+			}
+			if (bo.Op == token.NEQ) == dc.outcome {
+				return true
+			}
+		}
+		return false
+	}
+	derefsParam := func(fn *ssa.Function, idx int) bool {
+		if fn == nil || fn.Blocks == nil || idx >= len(fn.Params) {
+			return false
+		}
+		prm := fn.Params[idx]
+		found := false
+		for _, ref := range *prm.Referrers() {
+			switch x := ref.(type) {
+			case *ssa.FieldAddr:
+				if x.X == ssa.Value(prm) && !nilGuarded(prm, x) {
+					found = true
+				}
+			case *ssa.UnOp:
+				if x.Op == token.MUL && !nilGuarded(prm, x) {
+					found = true
+				}
+			}
+		}
+		return found
+	}
+	// unguarded dereference of v (a pointer result) in its function
+	derefSite := func(v ssa.Value) ssa.Instruction {
+		var site ssa.Instruction
+		for _, ref := range *v.Referrers() {
+			switch x := ref.(type) {
+			case *ssa.FieldAddr:
+				if x.X == v && !nilGuarded(v, x) {
+					site = x
+				}
+			case *ssa.UnOp:
+				if x.Op == token.MUL && x.X == v && !nilGuarded(v, x) {
+					site = x
+				}
+			case *ssa.Call:
+				if sc := x.Call.StaticCallee(); sc != nil && strings.HasPrefix(idOf(sc).pkg, modPath) && !nilGuarded(v, x) {
+					for i, a := range x.Call.Args {
+						if a == v && derefsParam(sc, i) {
+							site = x
+						}
+					}
+				}
+			}
+		}
+		return site
+	}
+	type req struct {
+		fn  *ssa.Function
+		idx int
+	}
+	seen := map[req]bool{}
+	var require func(fn *ssa.Function, idx int, site ssa.Instruction, via string, depth int)
+	nObl := 0
+	require = func(fn *ssa.Function, idx int, site ssa.Instruction, via string, depth int) {
+		if fn == nil || fn.Blocks == nil || depth > 4 || seen[req{fn, idx}] || !strings.HasPrefix(idOf(fn).pkg, modPath) {
+			return
+		}
+		seen[req{fn, idx}] = true
+		nObl++
+		key := fmt.Sprintf("%s/result#%d-non-nil", fnKey(fn), idx)
+		bad := token.NoPos
+		checkVal := func(v ssa.Value, pos token.Pos) {
+			switch x := v.(type) {
+			case *ssa.Const:
+				if x.IsNil() {
+					bad = pos
+				}
+			case *ssa.Extract:
+				if c, ok := x.Tuple.(*ssa.Call); ok {
+					if sc := c.Call.StaticCallee(); sc != nil {
+						require(sc, x.Index, site, via+" <- "+fnKey(fn), depth+1)
+					} else if n := cg.Nodes[fn]; n != nil {
+						for _, e := range n.Out {
+							if e.Site == ssa.CallInstruction(c) {
+								require(e.Callee.Func, x.Index, site, via+" <- "+fnKey(fn), depth+1)
+							}
+						}
+					}
+				}
+			case *ssa.Call:
+				if sc := x.Call.StaticCallee(); sc != nil {
+					require(sc, 0, site, via+" <- "+fnKey(fn), depth+1)
+				}
+			}
+		}
+		for _, b := range fn.Blocks {
+			ret, ok := b.Instrs[len(b.Instrs)-1].(*ssa.Return)
+			if !ok || idx >= len(ret.Results) {
+				continue
+			}
+			v := ret.Results[idx]
+			if ld, ok := v.(*ssa.UnOp); ok && ld.Op == token.MUL {
+				if cell, ok := ld.X.(*ssa.Alloc); ok {
+					// named result spilled to a cell (deferred closure): every store into it
+					for _, ref := range *cell.Referrers() {
+						if st, ok := ref.(*ssa.Store); ok && st.Addr == ssa.Value(cell) {
+							checkVal(st.Val, st.Pos())
+						}
+					}
+					continue
+				}
+			}
+			checkVal(v, ret.Pos())
+		}
+		if bad != token.NoPos {
+			r.Bad("C08.K8", key, bad, "%s can return a nil %s, which %s dereferences without a nil test (%s): the dereference runs on the connection goroutine outside any recover, so one such request ends the server process", fnKey(fn), "result", via, p.pos(site.Pos()))
+		} else {
+			r.OK("C08.K8", key, fn.Pos(), "no return path yields the nil constant for the result dereferenced at %s", p.pos(site.Pos()))
+		}
+	}
+	for _, fn := range pkgFuncs(p, "kmipserver") {
+		allInstrs(fn, func(in ssa.Instruction) {
+			c, ok := in.(*ssa.Call)
+			if !ok {
+				return
+			}
+			sig := c.Call.Signature()
+			if sig == nil {
+				return
+			}
+			for i := 0; i < sig.Results().Len(); i++ {
+				if !isModPtr(sig.Results().At(i).Type()) {
+					continue
+				}
+				var v ssa.Value = c
+				if sig.Results().Len() > 1 {
+					v = nil
+					for _, ref := range *c.Referrers() {
+						if ex, ok := ref.(*ssa.Extract); ok && ex.Index == i {
+							v = ex
+						}
+					}
+				}
+				if v == nil {
+					continue
+				}
+				site := derefSite(v)
+				if site == nil {
+					continue
+				}
+				if sc := c.Call.StaticCallee(); sc != nil {
+					require(sc, i, site, fnKey(fn), 0)
+				} else if n := cg.Nodes[fn]; n != nil {
+					for _, e := range n.Out {
+						if e.Site == ssa.CallInstruction(c) {
+							require(e.Callee.Func, i, site, fnKey(fn), 0)
+						}
+					}
+				}
+			}
+		})
+	}
+	if nObl == 0 {
+		r.Unk("C08.K8", "kmipserver/unguarded-derefs", token.NoPos, "no pointer result dereferenced without a nil test found: the batch-item chain was not recognised")
 	}
 }
